@@ -301,15 +301,15 @@ Theorem C20_counter_shift_semantic :
 Proof. exact counter_shift_semantic. Qed.
 Print Assumptions C20_counter_shift_semantic.
 
-(* ---- the two name generators share one name space (finding) ---- *)
+(* ---- the two name generators share one name space ---- *)
 From Polar Require Import HistoryCollide.
 
-(* MultiAssignTransformer's version names are counter names: "version names never equal counter
-   names" is false ... *)
-Theorem C20_multiassign_collision_refuted :
+(* OLD RULE (before /repo e4a742c): MultiAssignTransformer's version names "_"+var+str i ARE
+   counter names; "version names never equal counter names" was false ... *)
+Theorem C20_multiassign_collision_old_rule_refuted :
   ~ (forall var i tag k, In tag polar_tags -> ma_name var i <> gen_name tag k).
 Proof. exact multiassign_collision_refuted. Qed.
-Print Assumptions C20_multiassign_collision_refuted.
+Print Assumptions C20_multiassign_collision_old_rule_refuted.
 
 (* ... precisely for tag-named variables, at one value of the counter ... *)
 Theorem C20_multiassign_collision_iff :
@@ -318,14 +318,46 @@ Theorem C20_multiassign_collision_iff :
 Proof. exact multiassign_collision_iff. Qed.
 Print Assumptions C20_multiassign_collision_iff.
 
-(* ... so whether it happens depends on how many names earlier analyses consumed *)
+(* ... so whether it happened depended on how many names earlier analyses consumed *)
 Theorem C20_multiassign_collision_depends_on_history :
   forall var i j k0 k0', ends_nondigit var = true ->
     ma_name var i = gen_name var (k0 + j) -> ma_name var i = gen_name var (k0' + j) -> k0 = k0'.
 Proof. exact multiassign_collision_depends_on_history. Qed.
 Print Assumptions C20_multiassign_collision_depends_on_history.
 
-(* the proposed spelling "_<var>_<i>" is never a counter name of one of Polar's tags *)
+(* RULE AS COMMITTED (156ba8a, e4a742c): a version name is prefixed with "_" until it is neither an
+   identifier of the program text nor an existing variable: it never equals one of those ... *)
+Theorem C20_version_name_avoids_existing :
+  forall avoid var i, ~ In (version_name avoid var i) avoid.
+Proof. exact version_name_avoids. Qed.
+Print Assumptions C20_version_name_avoids_existing.
+
+(* ... get_unique_var skips reserved names and always advances the counter ... *)
+Theorem C20_unique_var_avoids_reserved :
+  forall reserved tag k,
+    ~ In (fst (unique_var reserved (List.length reserved) tag k)) reserved /\
+    k < snd (unique_var reserved (List.length reserved) tag k).
+Proof. exact unique_var_avoids. Qed.
+Print Assumptions C20_unique_var_avoids_reserved.
+
+(* ... but version names are not registered: a name handed out LATER (ConditionsReducer's _r<k>, ...)
+   can still equal a version name, at one counter value (finding, reproduced on the real code) *)
+Theorem C20_version_then_counter_collision_refuted :
+  ~ (forall avoid reserved var i tag k,
+       (forall x, In x reserved -> In x avoid) ->
+       fst (unique_var reserved (List.length reserved) tag k) <> version_name avoid var i).
+Proof. exact version_then_counter_collision_refuted. Qed.
+Print Assumptions C20_version_then_counter_collision_refuted.
+
+(* proposed repair: register every version name as reserved; then no later name equals it *)
+Theorem C20_reserved_versions_never_collide :
+  forall avoid reserved var i tag k,
+    In (version_name avoid var i) reserved ->
+    fst (unique_var reserved (List.length reserved) tag k) <> version_name avoid var i.
+Proof. exact reserved_versions_never_collide. Qed.
+Print Assumptions C20_reserved_versions_never_collide.
+
+(* alternative repair: the spelling "_<var>_<i>" is never a counter name of one of Polar's tags *)
 Theorem C20_multiassign_fixed_never_collides :
   forall var i tag k, In tag polar_tags -> ma_name_fixed var i <> gen_name tag k.
 Proof. exact multiassign_fixed_never_collides_polar. Qed.
@@ -379,6 +411,15 @@ Example C20_nonvacuous_collision :
   ma_name "t" 1 = gen_name "t" 1 /\ ma_name "t" 1 = "_t1"%string /\ ma_name_fixed "t" 1 = "_t_1"%string
   /\ nth 1 (names_from ["t"; "t"]%string 0) ""%string = ma_name "t" 1
   /\ In (ma_name "t" 1) (names_from ["t"; "t"]%string 2) = In "_t1"%string ["_t2"; "_t3"]%string.
+Proof. vm_compute. repeat split. Qed.
+
+(* the committed rule on the two witnesses: t (fixed: the temporary _t1 exists, so the version becomes __t1) and
+   r (open: the version _r1 is picked first, the alias _r1 is handed out later) *)
+Example C20_nonvacuous_version_rule :
+  version_name ["t"; "x"; "y"; "_t0"; "_t1"]%string "t" 1 = "__t1"%string
+  /\ version_name ["r"; "f"; "g"; "x"; "_old0"]%string "r" 1 = "_r1"%string
+  /\ unique_var ["r"; "f"; "g"; "x"]%string 4 "r" 1 = ("_r1"%string, 2)
+  /\ unique_var ["r"; "f"; "g"; "x"; "_r1"]%string 5 "r" 1 = ("_r2"%string, 3).
 Proof. vm_compute. repeat split. Qed.
 
 Example C20_nonvacuous_or_chain :
